@@ -454,7 +454,11 @@ def dump_writes(path, wmap):
 def run_scenario(scratch, threads, fault=None, policy=None, followup=True, timeout=None):
     """threads: list (one per actor 1..n) of lists of sessions.  fault: None | (k, 'fail').
     Returns dict(trace=..., env-derived facts)."""
+    ref = [None]
+    if policy == 'onrelease':
+        policy = sched_txn.switch_on_release(ref)
     sch = sched_txn.Sched(policy=policy)
+    ref[0] = sch
     env = Env(scratch, sched=sch, timeout=timeout)
     rec = env.rec
     n = len(threads)
@@ -547,7 +551,8 @@ def validate(scratch, traces, provider='sqlite', tag='trace'):
         reached = r['reached']
         inv = r['inv']
         accepted = reached == n + 1
-        d = dict(accepted=accepted, reached=reached, len=n, inv=None, first_unmatched=None)
+        d = dict(accepted=accepted, reached=reached, len=n, inv=None, first_unmatched=None,
+                 soft=(r['soft'][0], r['soft'][1]) if r.get('soft') and r['soft'][0] else None)
         if not accepted:
             if inv and inv[0]:
                 d['inv'] = (inv[0], inv[1])
